@@ -1,7 +1,10 @@
 (* C06 - consistency verdicts, tolerance partitions, diagnostics, refusal.  Property theorems only. *)
 From InfOCF Require Import Core Tol TolExt Form Model Diag Thm06.
-From InfOCF Require Import PyLib TieSolver TieCons.
-From InfOCFGen Require Import SrcCond SrcCons.
+From InfOCF Require Import PyLib TieSolver TieCons PyStr TieDiag.
+From InfOCFGen Require Import SrcCond SrcCons SrcDiag.
+Local Open Scope list_scope.
+Notation length := List.length.
+Notation concat := List.concat.
 From Coq Require Import ZArith.
 From Coq Require Import Permutation.
 
@@ -92,6 +95,26 @@ Theorem C06_source_refusal : forall n s weakly (d:dict Z cond) q u, dict_values 
     (is_pfalse r = true <-> infer n s weakly (dict_values d) q = Refuse).
 Proof. exact e2e_refusal. Qed.
 Print Assumptions C06_source_refusal.
+
+(* consistency_diagnostics is GENERATED too (with facts_jointly_satisfiable, build_fact_conditionals, augment_belief_base_with_facts,
+   _last_layer_size, and consistency() from consistency_sat.py; the variable validation of a fact is a parameter assumed to pass).
+   For every base, both switches and every list of facts: the call raises exactly when the model refuses (uses_facts with no fact),
+   and otherwise the returned dictionary holds under its five long keys - and again under the five short aliases - exactly the
+   model's flags, to which C06_diagnostics_flags above applies. *)
+Theorem C06_source_diagnostics_are_model : forall n validate, (forall s f, validate s f = Return tt) -> forall D ext uf facts,
+  match diagnostics n ext uf facts D with
+  | None => py_consistency_diagnostics n (S (List.length D + List.length facts)) validate (bbl D) ext uf facts tt tt "warn" = Raise
+  | Some d => exists dg, py_consistency_diagnostics n (S (List.length D + List.length facts)) validate (bbl D) ext uf facts tt tt "warn" = Return dg /\ flags_of dg d
+  end.
+Proof. exact tie_diagnostics. Qed.
+Print Assumptions C06_source_diagnostics_are_model.
+Example diagnostics_source_example :
+  py_consistency_diagnostics 4 8 (fun _ _ => Return tt) (bbl birds) true true [FVar 1; FNot (FVar 2)] tt tt "warn"
+  = Return [("facts_consistent", true); ("belief_base_weakly_consistent", true); ("belief_base_consistent", true); ("combination_consistent", false);
+            ("f_consistent", true); ("bb_consistent", true); ("bb_w_consistent", true); ("c_consistent", false)]%string
+  /\ (exists dg, py_consistency_diagnostics 4 6 (fun _ _ => Return tt) (bbl birds) true true [FNot (FVar 1)] tt tt "warn" = Return dg
+       /\ sdict_find dg "combination_infinity_increase" = Some true /\ sdict_find dg "c_consistent" = Some true).
+Proof. split; [vm_compute; reflexivity|]. eexists. split; [vm_compute; reflexivity|]. split; reflexivity. Qed.
 
 Example birds_partition : consistency_indices 4 false birds = Some [[1;4];[2;3]]
   /\ consistency_idx 4 true (birds ++ [{|ckey:=5; ccons:=FBot; cante:=FAnd (v 3) (v 1)|}]) = Some [[1;4];[2;3];[5]]
